@@ -46,7 +46,7 @@ from bacpypes.basetypes import PropertyReference, PropertyValue, DateTime, TimeS
 from bacpypes.apdu import ReadAccessSpecification, WriteAccessSpecification
 import bacpypes.apdu as apdu_mod
 from bacpypes.apdu import APDU, ConfirmedRequestPDU, confirmed_request_types, unconfirmed_request_types
-from bacpypes.npdu import NPDU, WhoIsRouterToNetwork, IAmRouterToNetwork
+from bacpypes.npdu import NPDU, WhoIsRouterToNetwork, IAmRouterToNetwork, NetworkNumberIs
 from bacpypes.bvll import BVLPDU, OriginalUnicastNPDU, OriginalBroadcastNPDU, ForwardedNPDU
 
 # ---- the device under test -----------------------------------------------------------------------------------
@@ -653,6 +653,26 @@ def generate(tier, seed, frames):
                  [raw(0x40, inv, 1, 1), raw(0x42, inv, 0, 1)], [raw(0x40, inv, 0, 127), raw(0x70, inv, 0)],
                  [raw(0x40, inv ^ 1, 0, 2)], [raw(0x40, inv, 0, 2), big]):
         yield {"batch": [g(big)] + [g(x) for x in tail], "label": {"k": "segments", "case": "segack-sequence"}}
+    # the device learns its network number, then is told another one (a corrected announcement): requests that a router
+    # delivers from stations of the network it first believed to be on are answered like any other
+    for first, flag1, second, flag2 in ((5, 0, 6, 1), (5, 0, 6, 0), (5, 1, 6, 1), (5, 0, 5, 1)):
+        for asker in (5, 6, 7):
+            if asker == second:
+                continue            # a routed frame claiming to come from the device's own network is refused as spoofed
+            routed = wire(rp(), inv=93, sadr=RemoteStation(asker, 3))
+            yield {"batch": [g(netmsg(NetworkNumberIs(net=first, flag=flag1)), src=2, bc=True),
+                             g(netmsg(NetworkNumberIs(net=second, flag=flag2)), src=2, bc=True), g(routed, src=2)],
+                   "label": {"k": "segments", "case": "network-number-is %d/%d then %d/%d, request from net %d" % (first, flag1, second, flag2, asker)}}
+    # two stations with the same MAC octets on different networks (one local, one behind a router) use the same invoke ID
+    # while the first one's segmented answer is still open: transactions are keyed by network AND station
+    same_mac = bytes(CLIENT_ADDR[1].addrAddr)
+    for other_net in (20, 65534):
+        twin = wire(rp(), inv=inv, sadr=RemoteStation(other_net, same_mac))
+        ctrl = wire(rp(), inv=inv, sadr=RemoteStation(other_net, b"\x07"))
+        yield {"batch": [g(big, src=1), g(twin, src=2), g(ctrl, src=2)],
+               "label": {"k": "segments", "case": "same MAC and invoke ID on network %d while a segmented answer is open" % other_net}}
+        yield {"batch": [g(big, src=1), g(twin, src=2), g(raw(0x40, inv, 0, 127), src=1)],
+               "label": {"k": "segments", "case": "same MAC and invoke ID on network %d, then the segment ack" % other_net}}
     # a subscriber that never acknowledges: confirmed notifications queue up behind each other and time out in turn
     sub = frames["subscribeCOV-confirmed"][0]
     again = bytearray(sub)
